@@ -594,6 +594,7 @@ def suggest_alphabet(c, d, rng):
                 if writable(vn) and writable(fname):
                     for m in misspell(vn, rng)[:2] + ([vn] if v["skip"] else []):
                         out.append(meta(fname, "list", items=[meta(m, "word")]))
+                        out.append(meta(fname, "nv", "s:" + m))          # the string form names a value, not a field: no suggestion
     seen = set()
     res = []
     for it in out:
